@@ -112,7 +112,7 @@ Proof.
   assert (Hout : fst (snd (rsi_next (steps rsi_next s0 cs) c)) =
      let pos := snd (ma_next (rs_pos (steps rsi_next s0 cs)) (ip (steps rsi_next s0 cs) c)) in
      let neg := fmul (snd (ma_next (rs_neg (steps rsi_next s0 cs)) (im (steps rsi_next s0 cs) c))) fm1 in
-     [if fne pos f0 || fne neg f0 then fdiv pos (fadd pos neg) else flit 1 2]).
+     [if fne (fadd pos neg) f0 then fdiv pos (fadd pos neg) else flit 1 2]).
   { unfold rsi_next at 1. unfold ip, im, ch. destruct (ma_next (rs_pos _) _), (ma_next (rs_neg _) _). cbn [snd]. dlet. reflexivity. }
   rewrite Hout. cbv zeta. rewrite Sp, Sn. cbn [rs_pos rs_neg s0]. rewrite !Cm.
   rewrite (inputs_series_next rsi_next ip _ s0 HDp cs c), (inputs_series_next rsi_next im _ s0 HDn cs c).
